@@ -226,6 +226,38 @@ func (p *rparser) asciiClass() (CharSet, bool) {
 	return nil, false
 }
 
+// ASCIIBacked are the categories with a documented-by-table meaning (ASCII letters).
+var ASCIIBacked = map[string]CharSet{
+	"Letter": NewSet(Range{'A', 'Z'}, Range{'a', 'z'}), "L": NewSet(Range{'A', 'Z'}, Range{'a', 'z'}),
+	"Lu": NewSet(Range{'A', 'Z'}), "Ll": NewSet(Range{'a', 'z'}),
+}
+
+// unicodeClassSet recognises \p{X}/\P{X} for the ASCII-backed categories and returns the set.
+func (p *rparser) unicodeClassSet() (CharSet, bool) {
+	save := p.pos
+	neg := false
+	switch {
+	case p.lit(`\p{`):
+	case p.lit(`\P{`):
+		neg = true
+	default:
+		return nil, false
+	}
+	for _, name := range []string{"Letter", "Lu", "Ll", "L"} {
+		s := p.pos
+		if p.lit(name) && p.peek() == '}' {
+			p.pos++
+			if neg {
+				return ASCIIBacked[name].NegASCII(), true
+			}
+			return ASCIIBacked[name], true
+		}
+		p.pos = s
+	}
+	p.pos = save
+	return nil, false
+}
+
 // unicodeClass recognises \p{..}/\P{..}; its meaning is outside the reference (nil set, flagged by the caller).
 func (p *rparser) unicodeClass() bool {
 	save := p.pos
@@ -267,6 +299,9 @@ func (p *rparser) charInRange() (rune, bool) {
 
 func (p *rparser) groupItem() (CharSet, bool) {
 	save := p.pos
+	if s, ok := p.unicodeClassSet(); ok {
+		return s, true
+	}
 	if p.unicodeClass() {
 		p.err = fmt.Errorf("unicode class outside the reference semantics")
 		return nil, true
@@ -309,6 +344,9 @@ func (p *rparser) matchItem() (*Atom, bool) {
 		return mk(s)
 	}
 	if s, ok := p.asciiClass(); ok {
+		return mk(s)
+	}
+	if s, ok := p.unicodeClassSet(); ok {
 		return mk(s)
 	}
 	if p.unicodeClass() {
